@@ -179,6 +179,25 @@ func inventedErrorAccepted(b *ssa.BasicBlock) string {
 	if _, _, isNil := ir.NilTest(f.Cond); isNil {
 		return "under a nil test (an absent configuration value, link or destination)"
 	}
+	// `case o == nil && n == nil:` of a tagless switch is a φ: its conjuncts are what is tested
+	if _, isPhi := f.Cond.(*ssa.Phi); isPhi {
+		all, n := true, 0
+		for _, g := range ir.ExpandFacts([]ir.Fact{f}) {
+			if _, isPhi := g.Cond.(*ssa.Phi); isPhi {
+				continue
+			}
+			if g.From != nil && g.From.Parent() == b.Parent() && !sameSwitchArm(g, f) {
+				continue
+			}
+			n++
+			if _, _, isNil := ir.NilTest(g.Cond); !isNil {
+				all = false
+			}
+		}
+		if all && n > 0 {
+			return "under nil tests only (both stacks exhausted, an absent value)"
+		}
+	}
 	if ex, ok := f.Cond.(*ssa.Extract); ok && ex.Index == 1 && !f.Truth {
 		if ta, isTA := ex.Tuple.(*ssa.TypeAssert); isTA {
 			// the default arm of a switch: at least two dynamic types were tried for the same value. A single failed
@@ -272,6 +291,9 @@ func sentinelGuardOK(b *ssa.BasicBlock) string {
 			if bi, ok := x.Call.Value.(*ssa.Builtin); ok && (bi.Name() == "len" || bi.Name() == "cap") {
 				return leaves(x.Call.Args[0], d+1)
 			}
+			if sc := ir.Callee(x.Call); sc != nil && (sc.String() == "errors.Is" || sc.String() == "errors.As") {
+				return true // an error classified as the sentinel: passing the protocol answer on
+			}
 			return ir.IsErrorType(x.Type())
 		case *ssa.Extract:
 			return ir.IsErrorType(x.Type())
@@ -291,4 +313,22 @@ func sentinelGuardOK(b *ssa.BasicBlock) string {
 		return "guarded by the state of the iteration"
 	}
 	return ""
+}
+
+// sameSwitchArm: g is one of the conjuncts the φ-fact f was expanded into (established in the blocks that feed the φ).
+func sameSwitchArm(g, f ir.Fact) bool {
+	phi, ok := f.Cond.(*ssa.Phi)
+	if !ok || g.From == nil {
+		return false
+	}
+	if g.Cond == f.Cond {
+		return true
+	}
+	for _, p := range phi.Block().Preds {
+		if p == g.From {
+			return true
+		}
+	}
+	// the first conjunct is tested in the block that dominates the others
+	return g.From.Dominates(phi.Block())
 }
